@@ -43,8 +43,10 @@ METHODS = {  # name -> (Coq constructor, source)
     "name": ("Mname", "stat"), "ppid": ("Mppid", "stat"), "cpu_times": ("Mcpu_times", "stat"), "cpu_num": ("Mcpu_num", "stat"),
     "uids": ("Muids", "status"), "gids": ("Mgids", "status"), "num_threads": ("Mnum_threads", "status"),
     "num_ctx_switches": ("Mnum_ctx", "status"), "memory_info": ("Mmemory_info", "statm"),
-    "memory_full_info": ("Mmemory_full", "smaps"),
+    "memory_full_info": ("Mmemory_full", "smaps"), "memory_maps": ("Mmemory_maps", "smaps"),
 }
+# real, un-memoized methods returning mutable containers whose source never changes in a case: constants in the model
+CALLX = {"cmdline": 11, "environ": 12, "open_files": 13, "threads": 14, "as_dict_cmdline": 11}
 MNAMES = sorted(METHODS)
 PID = 4242
 _IMPL_DIR = None
@@ -56,7 +58,12 @@ ORDER_CODE = r"""
 import json, sys, psutil
 from props.C16 import build_attrs
 req = json.load(sys.stdin)
-out = {"file": psutil.__file__, "all": list(psutil._as_dict_attrnames), "orders": []}
+def memo(cls):
+    # functools.wraps copies the decorator's attributes outwards, so an outer wrap_exceptions still shows them
+    return sorted(n for n in dir(cls) if callable(getattr(cls, n, None)) and hasattr(getattr(cls, n), "cache_activate")
+                  and hasattr(getattr(cls, n), "cache_deactivate"))
+out = {"file": psutil.__file__, "all": list(psutil._as_dict_attrnames), "orders": [],
+       "memo_front": memo(psutil.Process), "memo_platform": memo(psutil._psplatform.Process)}
 assert isinstance(psutil._as_dict_attrnames, (set, frozenset)) and psutil._as_dict_attrnames
 for kind, names in req:
     out["orders"].append(list(set(build_attrs(kind, names))))
@@ -100,9 +107,17 @@ def gen_tables(impl_dir, out_dir):
     _ORDER_ALL = d["all"]
     names = sorted(d["all"])
     rows = ";\n   ".join("%s (* %s *)" % (G.by(n), n) for n in names)
-    txt = ("(* GENERATED by props/C16.py from psutil._as_dict_attrnames of the tree under test. Do not edit. *)\n"
+
+    def lst(xs):
+        return "[" + ";\n   ".join("%s (* %s *)" % (G.by(n), n) for n in xs) + "]"
+    txt = ("(* GENERATED by props/C16.py from the tree under test. Do not edit. *)\n"
            "From PV Require Import Base.Prelude.\n\n"
-           "Definition as_dict_attrnames : list (list Z) :=\n  [%s].\n" % rows)
+           "(* psutil._as_dict_attrnames *)\n"
+           "Definition as_dict_attrnames : list (list Z) :=\n  [%s].\n\n"
+           "(* methods of psutil.Process decorated with memoize_when_activated (they carry cache_activate / cache_deactivate) *)\n"
+           "Definition memoized_front : list (list Z) :=\n  %s.\n\n"
+           "(* the same for the platform class psutil._psplatform.Process *)\n"
+           "Definition memoized_platform : list (list Z) :=\n  %s.\n" % (rows, lst(d["memo_front"]), lst(d["memo_platform"])))
     os.makedirs(out_dir, exist_ok=True)
     path = os.path.join(out_dir, "C16_Tables.v")
     old = open(path).read() if os.path.exists(path) else None
@@ -125,7 +140,7 @@ def _gen_hist(rng, n):
     ver = {s: 1 for s in SRC}
     st = {s: ["A", 1] for s in SRC}
     init = [list(st[s]) for s in SRC]
-    ops, depth, dead = [], 0, False
+    ops, depth, dead, nres = [], 0, False, 0
     for _ in range(n):
         k = rng.random()
         if k < 0.17:
@@ -145,10 +160,36 @@ def _gen_hist(rng, n):
                 st[s] = ["G"]
         elif k < 0.54:
             ops.append(["pid"])
+        elif k < 0.64 and not dead:
+            ops.append(["callx", rng.choice(sorted(CALLX))]); nres += 1
+            continue
+        elif k < 0.72 and nres:
+            ops.append(["mut", rng.randrange(nres), rng.choice(["clear", "append", "pop", "nested"])])
         else:
             m = rng.choice(MNAMES)
             ops.append(["call", m])
+            nres += 1
+            continue
+        if ops[-1][0] == "pid":
+            nres += 1
     return init, ops
+
+
+def _gen_mut_directed(rng):
+    """call; mutate the answer in place; call again in the same block; nested as_dict; after the block."""
+    x = rng.choice(sorted(CALLX) + ["memory_maps", "memory_maps"])
+    call = ["call", x] if x == "memory_maps" else ["callx", x]
+    how = rng.choice(["clear", "append", "pop", "nested"])
+    ops = [["enter"], call, ["mut", 0, how], call]
+    n = 2
+    if rng.random() < 0.5:
+        ops += [["callx", "as_dict_cmdline"], ["mut", n, rng.choice(["clear", "nested"])], ["callx", "as_dict_cmdline"]]
+        n += 2
+    if rng.random() < 0.5:
+        ops += [["enter"], call, ["mut", n, how], ["exit"], call]
+        n += 2
+    ops += [["call", "name"], rng.choice([["exit"], ["raise"]]), call, ["mut", n + 1, how], call]
+    return [["A", 1]] * 4, ops
 
 
 def _drain(progs):
@@ -219,8 +260,12 @@ def gen_cases(rng, tier):
     # ---- single-thread histories
     for _ in range(n_hist):
         init, ops = _gen_hist(rng, rng.choice([5, 8, 12, 20, 40]))
-        ncall = sum(1 for o in ops if o[0] == "call")
-        cases.append({"kind": "hist", "cls": "hist" if ncall else "trivial", "init": init, "ops": ops})
+        ncall = sum(1 for o in ops if o[0] in ("call", "callx"))
+        nmut = sum(1 for o in ops if o[0] == "mut")
+        cases.append({"kind": "hist", "cls": ("hist-mut" if nmut else "hist") if ncall else "trivial", "init": init, "ops": ops})
+    for _ in range({"quick": 60, "thorough": 1500, "search": 400}[tier]):
+        init, ops = _gen_mut_directed(rng)
+        cases.append({"kind": "hist", "cls": "hist-mut-directed", "init": init, "ops": ops})
     # ---- thread schedules
     for _ in range(n_sched):
         nplain = rng.choice([1, 1, 2])
@@ -394,6 +439,12 @@ def _op(o):
         return "(OCall (CM %s))" % METHODS[o[1]][0]
     if k == "pid":
         return "(OCall CPid)"
+    if k == "callx":
+        c = "(OCall (CStub (Val %d%%nat)))" % CALLX[o[1]]
+        # as_dict(['cmdline']) = its own (possibly nested) block around the one call
+        return "OEnter; %s; OExit" % c if o[1] == "as_dict_cmdline" else c
+    if k == "mut":
+        return None    # what the caller does to an answer is not an event of the model (C16_alias_free)
     if k == "stub":
         return "(OCall (CStub %s))" % _outc(o[1])
     if k == "set":
@@ -401,6 +452,10 @@ def _op(o):
     if k == "gone":
         return "(OEnv EGone)"
     raise ValueError(k)
+
+
+def _ops(ops):
+    return G.lst([x for x in (_op(o) for o in ops) if x is not None])
 
 
 def _init(case):
@@ -437,16 +492,16 @@ def _elem(e):
 def coq_term(case):
     k = case["kind"]
     if k == "hist":
-        return "run_hist %s %s %s %d%%nat" % (VARIANT, _init(case), G.lst([_op(o) for o in case["ops"]]), 10 * len(case["ops"]) + 6)
+        return "run_hist %s %s %s %d%%nat" % (VARIANT, _init(case), _ops(case["ops"]), 10 * (len(case["ops"]) + 2 * sum(1 for o in case["ops"] if o[0] == "callx")) + 6)
     if k == "sched":
-        progs = G.lst([G.lst([_op(o) for o in p]) for p in case["progs"]])
+        progs = G.lst([_ops(p) for p in case["progs"]])
         return "run_threads %s %s %s [%s]%%nat" % (VARIANT, _init(case), progs, ";".join(str(t) for t in case["sched"]))
     if k == "asdict_any":
         valid = case["valid"]
         tbl = ["(%s, %s)" % (G.by(n), "(CM %s)" % METHODS[n][0] if n in METHODS else "CPid" if n == "pid" else "(CStub (Val 0%nat))")
                for n in valid]
         attrs = "PNotColl" if case["container"] == "notcoll" else "(PColl %s)" % G.lst([_elem(e) for e in case["elems"]])
-        return "run_asdict_any %s %s %s %s %s" % (_init(case), G.lst([_op(o) for o in case["pre"]]),
+        return "run_asdict_any %s %s %s %s %s" % (_init(case), _ops(case["pre"]),
                                                   G.lst([G.by(n) for n in valid]), G.lst(tbl), attrs)
     if k == "asdict":
         valid = case["valid"]
@@ -467,7 +522,7 @@ def coq_term(case):
         else:
             # iteration order of set(attrs) first, the remaining (duplicate) occurrences after it
             attrs = "(AColl %s)" % G.lst([G.by(n) for n in case["order"] + list(a[1])])
-        return "run_asdict %s %s %s %s %s" % (_init(case), G.lst([_op(o) for o in case["pre"]]),
+        return "run_asdict %s %s %s %s %s" % (_init(case), _ops(case["pre"]),
                                               G.lst([G.by(n) for n in valid]), G.lst(tbl), attrs)
     raise ValueError(k)
 
@@ -511,6 +566,9 @@ def judge(case, coq, impl):
     if _has_oom(coq["model"]):
         return Verdict("skip", "outside the model")
     k = case["kind"]
+    errs = impl.get("errs") if isinstance(impl, dict) else (impl[3] if isinstance(impl, list) and len(impl) > 3 else None)
+    if errs:
+        return Verdict("violation", "oneshot() itself raised while being entered / left: %r" % (errs,))
     if k == "hist":
         if not coq["done"]:
             return Verdict("corr", "model run did not finish within its step budget")
@@ -580,6 +638,8 @@ class FakeTarget:
         self.paths = {s: os.path.join(self.dir, s) for s in SRC}
         for s in SRC:
             self.write(s, ["A", 1])
+        with open(os.path.join(self.dir, "environ"), "wb") as f:
+            f.write(b"A=1\x00B=2\x00")
         self.proc = None
         self._orig = None
         self.install()
@@ -654,8 +714,27 @@ class FakeTarget:
         return self.counts.pop(threading.get_ident(), [0, 0, 0, 0])
 
     # -- one modelled method call -> canonical outcome (the version the answer carries)
-    def call(self, m):
+    def callx(self, name):
+        """A real, un-memoized method whose kernel-side answer is constant in a case: (canonical outcome, raw object)."""
+        p = self.proc
+        expected = {"cmdline": ["proc"], "environ": {"A": "1", "B": "2"}, "open_files": [], "threads": [],
+                    "as_dict_cmdline": {"cmdline": ["proc"]}}[name]
+        try:
+            raw = p.as_dict(attrs=["cmdline"]) if name == "as_dict_cmdline" else getattr(p, name)()
+        except BaseException as e:  # noqa
+            if isinstance(e, (KeyboardInterrupt, SystemExit)):
+                raise
+            return Exc(exc_name(e)), None
+        code = CALLX[name]
+        return Val(code if raw == expected else 9000 + code), raw
+
+    def call(self, m, with_raw=False):
+        r, raw = self._call(m)
+        return (r, raw) if with_raw else r
+
+    def _call(self, m):
         p, px = self.proc, self.px
+        raw = None
         try:
             if m == "name":
                 v = int(p.name()[1:])
@@ -677,13 +756,16 @@ class FakeTarget:
                 v = p.memory_info().rss // px.PAGESIZE
             elif m == "memory_full_info":
                 v = p.memory_full_info().pss // 1024
+            elif m == "memory_maps":
+                raw = p.memory_maps()
+                v = (raw[0].pss // 1024) if len(raw) == 1 and hasattr(raw[0], "pss") else 9000 + len(raw)
             else:
                 raise ValueError(m)
         except BaseException as e:  # noqa
             if isinstance(e, (KeyboardInterrupt, SystemExit)):
                 raise
-            return Exc(exc_name(e))
-        return Val(v)
+            return Exc(exc_name(e)), None
+        return Val(v), raw
 
     def decode(self, name, value):
         """Version carried by the value as_dict stored under `name`."""
@@ -702,6 +784,8 @@ class FakeTarget:
             return value.rss // px.PAGESIZE
         if name == "memory_full_info":
             return value.pss // 1024
+        if name == "memory_maps":
+            return (value[0].pss // 1024) if len(value) == 1 else 9000 + len(value)
         return value
 
     def ptrs(self):
@@ -713,38 +797,65 @@ class BodyError(Exception):
 
 
 class Runner:
-    """Executes one thread's list of operations on the target."""
+    """Executes one thread's list of operations on the target.  Whatever psutil raises while it is being driven is
+    an implementation outcome (recorded, judged), never a harness failure."""
 
     def __init__(self, tgt):
         self.tgt = tgt
         self.stack = []
         self.res = []
+        self.objs = []     # the raw objects handed out, by answer index (for in-place mutation by the caller)
+        self.errs = []     # exceptions raised by oneshot() itself on enter / exit
+
+    def _guard(self, what, fn):
+        try:
+            return fn()
+        except BodyError:
+            raise
+        except BaseException as e:  # noqa
+            if isinstance(e, (KeyboardInterrupt, SystemExit)):
+                raise
+            self.errs.append([what, exc_name(e)])
+            return None
 
     def step(self, o, pause=None):
         t, k = self.tgt, o[0]
         if k == "enter":
             cm = t.proc.oneshot()
-            cm.__enter__()
-            self.stack.append(cm)
+            if self._guard("enter", lambda: (cm.__enter__(), True)[1]):
+                self.stack.append(cm)
         elif k == "exit":
             if self.stack:
-                self.stack.pop().__exit__(None, None, None)
+                cm = self.stack.pop()
+                self._guard("exit", lambda: cm.__exit__(None, None, None))
         elif k == "raise":
             while self.stack:
                 cm = self.stack.pop()
                 e = BodyError("raised in the body")
-                try:
-                    swallowed = cm.__exit__(BodyError, e, None)
-                except BodyError:
-                    swallowed = False
-                if swallowed:
-                    raise RuntimeError("oneshot() swallowed the body's exception")
+
+                def leave(cm=cm, e=e):
+                    try:
+                        return cm.__exit__(BodyError, e, None)
+                    except BodyError:
+                        return False
+                if self._guard("exit-by-exception", leave):
+                    self.errs.append(["exit-by-exception", "swallowed the body's exception"])
         elif k == "call":
             t.take_counts()
-            r = t.call(o[1])
+            r, raw = t.call(o[1], with_raw=True)
             self.res.append([r, t.take_counts()])
+            self.objs.append(raw)
+        elif k == "callx":
+            t.take_counts()
+            r, raw = t.callx(o[1])
+            self.res.append([r, t.take_counts()])
+            self.objs.append(raw)
+        elif k == "mut":
+            if o[1] < len(self.objs):
+                _mutate(self.objs[o[1]], o[2])
         elif k == "pid":
             self.res.append([Val(t.proc.pid), [0, 0, 0, 0]])
+            self.objs.append(None)
         elif k == "set":
             if pause:
                 pause()
@@ -756,14 +867,50 @@ class Runner:
         else:
             raise ValueError(k)
 
+    def close(self):
+        while self.stack:
+            cm = self.stack.pop()
+            self._guard("exit", lambda: cm.__exit__(None, None, None))
 
-def _stub(psutil, spec):
+
+def _mutate(obj, how):
+    """The caller changes an answer in place (only lists and dicts can be)."""
+    junk = "\x00mutated-by-caller"
+    try:
+        if how == "nested" and isinstance(obj, dict):
+            for v in list(obj.values()):
+                if isinstance(v, (list, dict)):
+                    _mutate(v, "clear")
+                    _mutate(v, "append")
+            return
+        if isinstance(obj, list):
+            if how in ("clear", "nested"):
+                del obj[:]
+            elif how == "pop" and obj:
+                obj.pop()
+            else:
+                obj.append(junk)
+        elif isinstance(obj, dict):
+            if how == "clear":
+                obj.clear()
+            elif how == "pop" and obj:
+                obj.pop(next(iter(obj)))
+            else:
+                obj[junk] = junk
+    except Exception:  # noqa
+        pass
+
+
+def _stub(psutil, spec, orig=None):
     def f():
         if spec[0] == "val":
             return spec[1]
         if spec[1] == "NotImplementedError":
             raise NotImplementedError("stub")
         raise getattr(psutil, spec[1])(PID, "stub")
+    # wrap, don't replace: whatever a decorator hung on the real method (cache_activate, cache_deactivate,
+    # __wrapped__ ...) stays reachable through the stub
+    f.__dict__.update(getattr(orig, "__dict__", {}))
     return f
 
 
@@ -836,8 +983,9 @@ def impl_run(case, coq, env):
             for o in case["ops"]:
                 r.step(o)
             out = {"res": r.res, "ptrs": tgt.ptrs()}
-            while r.stack:
-                r.stack.pop().__exit__(None, None, None)
+            if r.errs:
+                out["errs"] = r.errs
+            r.close()
             return out
         if k == "sched":
             from props._c16_sched import Controller
@@ -852,7 +1000,12 @@ def impl_run(case, coq, env):
             unfinished = ctl.run([mk(r, p) for r, p in zip(runners, case["progs"])], case["sched"])
             if ctl.errors:
                 raise RuntimeError("harness thread failed: %r" % (ctl.errors,))
-            return {"threads": [r.res for r in runners], "ptrs": tgt.ptrs(), **({"unfinished": unfinished} if unfinished else {})}
+            out = {"threads": [r.res for r in runners], "ptrs": tgt.ptrs()}
+            if unfinished:
+                out["unfinished"] = unfinished
+            if any(r.errs for r in runners):
+                out["errs"] = [r.errs for r in runners]
+            return out
         if k == "asdict_any":
             p = tgt.proc
             if list(psutil._as_dict_attrnames) != case["valid"]:
@@ -883,8 +1036,9 @@ def impl_run(case, coq, env):
                 res = Exc(exc_name(e))
             cnt = tgt.take_counts()
             out = [res, cnt, tgt.ptrs()]
-            while r.stack:
-                r.stack.pop().__exit__(None, None, None)
+            if r.errs:
+                out.append(r.errs)
+            r.close()
             return out
         if k == "asdict":
             p = tgt.proc
@@ -893,7 +1047,7 @@ def impl_run(case, coq, env):
                 return T("Skip", "iteration order of _as_dict_attrnames differs from the one the case was built with")
             for nme in valid:
                 if nme not in METHODS and nme != "pid":
-                    setattr(p, nme, _stub(psutil, case["stubs"].get(nme, ["val", 0])))
+                    setattr(p, nme, _stub(psutil, case["stubs"].get(nme, ["val", 0]), getattr(type(p), nme, None)))
             r = Runner(tgt)
             for o in case["pre"]:
                 r.step(o)
@@ -918,8 +1072,9 @@ def impl_run(case, coq, env):
                 res = Exc(exc_name(e))
             cnt = tgt.take_counts()
             out = [res, cnt, tgt.ptrs()]
-            while r.stack:
-                r.stack.pop().__exit__(None, None, None)
+            if r.errs:
+                out.append(r.errs)
+            r.close()
             return out
         raise ValueError(k)
     finally:
